@@ -26,7 +26,10 @@ Cases ==
      /\ Stable(c)
      /\ c.method = "hook" => Len(c.objs) = 1                       \* execHook waits for one hook at a time
      /\ c.method = "wait" => "Job" \notin KindsOf(c.objs)          \* plain --wait does not wait for Jobs
-     /\ c.strategy = "hookonly" => Len(c.objs) = 1}
+     /\ c.strategy = "hookonly" => Len(c.objs) = 1
+     \* (the legacy hook watch takes the DELETION of the hook object as its end: hook objects deleted by somebody
+     \*  else while helm waits are outside what the cases assume for that strategy)
+     /\ (c.strategy = "legacy" /\ c.method = "hook") => \A i \in DOMAIN c.objs[1].script : c.objs[1].script[i] # "gone"}
 
 Init == WInitOn(Cases)
 Next == WNext
